@@ -201,6 +201,15 @@ def work(shard, res, tier, seed):
             carbon_one("C" * n + "O.C=O>>" + "C" * n + "OCO", res, CheckCarbonBalance, is_carbon_balanced)
         for k in range(0, min(len(pick), 200), 20):
             atom_balance_sequence([r["reaction"] for r in pick[k:k + 20]], res, CheckCarbonBalance)
+        # sides that consist of the same molecule strings with other multiplicities, in one checker instance
+        fams = G.self_reaction_families(rng, 30 if tier == "quick" else 300)
+        for fam in fams:
+            atom_balance_sequence([rx for _, rx in fam], res, CheckCarbonBalance)
+            atom_balance_sequence([rx for _, rx in fam][::-1], res, CheckCarbonBalance)
+        allfam = [rx for fam in fams for _, rx in fam]
+        rng.shuffle(allfam)
+        atom_balance_sequence(allfam, res, CheckCarbonBalance)
+        res.count("multiplicity_families", len(fams))
     if "data_decomposer" in shard:
         rows = rng.sample(corpus.validation_rows(), shard["data_decomposer"])
         for nj in (1, 4):
